@@ -1106,4 +1106,42 @@ theorem metadata_params_shape (cs : Bool) (it : List Char) (fl : List Param) :
         ["retry".toList, "timeout".toList, "metadata".toList] := by
   cases cs <;> simp [metadataParams, tailParams]
 
+/-! ### result type of the metadata entry -/
+
+section Aux
+theorem ne_wrapped (pre suf t : List Char) (h : 0 < pre.length) : t ≠ pre ++ t ++ suf := by
+  intro e
+  have := congrArg List.length e
+  simp at this
+  omega
+end Aux
+
+/-- `metadata_result_type_stream_iff`: for an RPC that is neither LRO nor paginated and is not void, the
+    metadata's `resultType` is `Iterable[<output>]` exactly when the calling form is server-streaming or
+    bidi-streaming — the two forms whose emitted client method returns a response stream and whose sample
+    iterates `for response in stream`; for plain and client-streaming calls it is the bare output type. -/
+theorem metadata_result_type_stream_iff (m : MethodShape) (t : List Char) (hl : m.lro = false) (hp : m.paged = false) :
+    streamShaped t (metadataResultType false m.serverStreaming t) = (callingForm m).yieldsStream := by
+  rcases m with ⟨lro, paged, cs, ss⟩
+  simp only at hl hp
+  subst hl hp
+  have hne : ¬ t = "Iterable[".toList ++ t ++ "]".toList := ne_wrapped "Iterable[".toList "]".toList t (by decide)
+  cases cs <;> cases ss <;> simp [streamShaped, metadataResultType, callingForm, CallingForm.yieldsStream] <;>
+    (intro e; exact hne (by simpa using e))
+
+example : (⟨false, false, true, true⟩ : MethodShape).lro = false ∧ (⟨false, false, true, true⟩ : MethodShape).paged = false ∧
+    metadataResultType false true "acme.chat_v1.types.Reply".toList = some "Iterable[acme.chat_v1.types.Reply]".toList ∧
+    callingForm ⟨false, false, true, true⟩ = .requestStreamingBidi := by decide
+
+/-- a void RPC has no result type, whatever its streaming shape -/
+theorem metadata_result_type_void (ss : Bool) (t : List Char) : metadataResultType true ss t = none := by
+  simp [metadataResultType]
+
+/-- LRO and paginated calls never yield a stream (their result types are the operation / pager classes) -/
+theorem lro_paged_not_stream (m : MethodShape) (h : m.lro = true ∨ m.paged = true) : (callingForm m).yieldsStream = false := by
+  rcases m with ⟨lro, paged, cs, ss⟩
+  cases lro <;> cases paged <;> simp_all [callingForm, CallingForm.yieldsStream]
+
+example : (⟨false, true, false, false⟩ : MethodShape).lro = true ∨ (⟨false, true, false, false⟩ : MethodShape).paged = true := by decide
+
 end GapicModel.Props.C14
